@@ -586,20 +586,20 @@ theorem fork_inv (st : State) (h : Inv st) (p : Nat) {st' o} (hs : step st (.for
 
 /-! ### register -/
 theorem regStep_eq (st : State) (T i n : Nat) (e t : Bool) {st' o} (hs : regStep st T i n e t = some (st', o)) :
-    busy st T = false ∧ st.lock = none ∧ st.reg i = false ∧
+    busy st T = false ∧ st.reg i = false ∧
     ((NSIG ≤ n ∧ st' = st ∧ o = [Out.err]) ∨
-     (n < NSIG ∧ st' = addSt (baseSt st) T i n e t ∧
+     (st.lock = none ∧ n < NSIG ∧ st' = addSt (baseSt st) T i n e t ∧
       o = baseOut st ++ (if (baseSt st).count n == 0 then [Out.disp n true] else []))) := by
   unfold regStep at hs
-  cases hb : busy st T <;> cases hl : st.lock <;> simp [hb, hl] at hs
-  cases hr : st.reg i <;> simp [hr] at hs
-  refine ⟨rfl, rfl, rfl, ?_⟩
+  cases hb : busy st T <;> simp [hb] at hs
   by_cases hn : NSIG ≤ n
   · simp [hn] at hs
-    left; exact ⟨hn, hs.1.symm, hs.2.symm⟩
+    cases hr : st.reg i <;> simp [hr] at hs
+    exact ⟨rfl, rfl, Or.inl ⟨hn, hs.1.symm, hs.2.symm⟩⟩
   · simp [hn] at hs
-    right
-    exact ⟨by omega, hs.1.symm, by rw [← hs.2]; simp⟩
+    cases hl : st.lock <;> simp [hl] at hs
+    cases hr : st.reg i <;> simp [hr] at hs
+    exact ⟨rfl, rfl, Or.inr ⟨rfl, by omega, hs.1.symm, by rw [← hs.2]; simp⟩⟩
 
 theorem count_zero_of_range (st : State) (h : Inv st) (n : Nat) (hn : NSIG ≤ n) : st.count n = 0 := by
   obtain ⟨regs, _, hm, hc⟩ := h.count_card
@@ -811,8 +811,8 @@ theorem add_inv (s : State) (h : Inv s) (T i n : Nat) (e t : Bool) (hown : s.own
             pend_reg := hpr, lock_pend := h.lock_pend, noted_ok := hnoted }
 
 theorem reg_inv (st : State) (h : Inv st) (T i n : Nat) (e t : Bool) {st' o} (hs : regStep st T i n e t = some (st', o)) : Inv st' := by
-  obtain ⟨_, hl, hr, hcase⟩ := regStep_eq st T i n e t hs
-  rcases hcase with ⟨_, rfl, _⟩ | ⟨hn, rfl, _⟩
+  obtain ⟨_, hr, hcase⟩ := regStep_eq st T i n e t hs
+  rcases hcase with ⟨_, rfl, _⟩ | ⟨hl, hn, rfl, _⟩
   · exact h
   · obtain ⟨hb, hown, _, _, _, _⟩ := base_inv st h hl
     apply add_inv _ hb T i n e t hown ?_ hn
@@ -1381,8 +1381,8 @@ theorem oblig_step (st : State) (h : Inv st) (i : Nat) (ho : Oblig st i) (a : Ac
   cases a with
   | reg T j n e t =>
     simp only [step] at hs
-    obtain ⟨hb, hl, hrj, hcase⟩ := regStep_eq st T j n e t hs
-    rcases hcase with ⟨_, rfl, _⟩ | ⟨hn, rfl, _⟩
+    obtain ⟨hb, hrj, hcase⟩ := regStep_eq st T j n e t hs
+    rcases hcase with ⟨_, rfl, _⟩ | ⟨hl, hn, rfl, _⟩
     · exact ⟨hown, hr, hob⟩
     · have hji : i ≠ j := by intro hij; rw [hij, hrj] at hr; cases hr
       have hbase : baseSt st = st := by
